@@ -69,6 +69,12 @@ def eval_closed(t):
                     "Not": lambda: not x, "bool": lambda: bool(x), "USub": lambda: -x}[t.f]()
         if t.f == "pow" and len(a) == 3:
             return pow(eval_closed(a[0]), eval_closed(a[1]), eval_closed(a[2]))
+        if t.f == "ifelse" and len(a) == 3:
+            return eval_closed(a[1]) if eval_closed(a[0]) else eval_closed(a[2])
+        if t.f == "index" and len(a) == 2:
+            seq, i = eval_closed(a[0]), eval_closed(a[1])
+            if isinstance(seq, (list, tuple, bytes)) and isinstance(i, int) and -len(seq) <= i < len(seq):
+                return seq[i]
         if t.f == "be2int":
             return int.from_bytes(eval_closed(a[0]), "big")
         if t.f == "rev":
